@@ -2,7 +2,7 @@ CONSTANT Mode = "mixed"
 CONSTANT MaxSteps = 3
 CONSTANT MaxZero = 1
 CONSTANT RowCounts = {3, 4}
-CONSTANT NGen = 2
+CONSTANT NGen = 1
 SPECIFICATION Spec
 INVARIANT TypeOK
 INVARIANT Consistent
